@@ -148,7 +148,8 @@ def main(run):
     # (their span obligations — the C02 engine — run here for these two scanners), (b) the path key is the normalised segment sequence, whose
     # fold step must be the RFC one (the C09 step rule, run here too): a wrong decomposition or a wrong step makes == merge or split values
     from . import scanprop, c02
-    scanprop.run_property(run, 'C07', lambda o: o in c02.OWNERS, 20, 'decompositions behind ==', key_pred=lambda k: k[1].endswith(('::parts', '::reference_parts')))
+    _own = set(c02.OWNERS) | {'uri::authority::Authority', 'iri::authority::Authority'}
+    scanprop.run_property(run, 'C07', lambda o: o in _own, 26, 'decompositions behind ==', key_pred=lambda k: k[1].endswith(('::parts', '::reference_parts')))
     from .. import normstep
     probs, nst = normstep.analyse(P)
     run.cov['sequence_step_cases'] = nst.get('cases', 0)
